@@ -167,6 +167,13 @@ func checkC17(tier, replay string) int {
 			}
 		}
 		hs = append(hs, history{[]fault{{Kind: "tool-missing", Listing: "small"}}}, history{[]fault{{Kind: "tool-missing", Listing: "big"}}})
+		// the profiler itself is killed (SIGKILL: no deferred clean-up runs) after the disassembler has produced p bytes
+		for p := 0; p <= len(LB); p += 1024 {
+			hs = append(hs, history{[]fault{{Kind: "kill-profiler-after", P: p, Listing: "big"}}})
+		}
+		for _, p := range []int{0, 1, 64, 65, 700, len(L) - 1, len(L)} {
+			hs = append(hs, history{[]fault{{Kind: "kill-profiler-after", P: p, Listing: "small"}}})
+		}
 		for n := 1; n <= 9; n++ {
 			hs = append(hs, history{[]fault{{Kind: "kill-at-write", N: n, Listing: "big"}}})
 			hs = append(hs, history{[]fault{{Kind: "err-at-write", N: n, Listing: "big"}}})
@@ -213,6 +220,8 @@ func checkC17(tier, replay string) int {
 				r = runProf(bin, last, []string{fmt.Sprintf("FAKE_CUT=%d", f.P), "FAKE_EXIT=1"})
 			case "cut-kill":
 				r = runProf(bin, last, []string{fmt.Sprintf("FAKE_CUT=%d", f.P), "FAKE_KILL=self"})
+			case "kill-profiler-after":
+				r = runProf(bin, last, []string{fmt.Sprintf("FAKE_CUT=%d", f.P), "FAKE_KILL=parent"})
 			case "tool-missing":
 				r = runCmd(60*time.Second, []string{"PATH=/nonexistent-dir", "HOME=" + filepath.Join(scratch, "home"), "USER=root"}, scratch, pe.profiler, "-format", "config", bin)
 			case "kill-at-write", "err-at-write":
@@ -278,7 +287,7 @@ func checkC17(tier, replay string) int {
 	if straceUnavailable > 0 {
 		ctx.Capped("strace not available: write-level crash points skipped")
 	}
-	ctx.Cov["rule"] = "histories run1(fault)[; run2(fault')]; run(normal) on the real profiler binary with a fake `go` tool: disassembler prints the first p bytes of the listing and exits 1 or is killed (quick: every line boundary, every byte of the first two lines and of the execve site, around every 4096-byte flush boundary of a 20 kB listing; thorough: every byte), tool missing from PATH, SIGKILL or ENOSPC injected by strace at the N-th write to the cache file (N=1..9), and depth-2 fault sequences at line granularity; oracle: the final normal run prints exactly the cold-cache profile or exits non-zero, and a reused cache file equals the complete one; distinct_nontrivial = histories"
+	ctx.Cov["rule"] = "histories run1(fault)[; run2(fault')]; run(normal) on the real profiler binary with a fake `go` tool: disassembler prints the first p bytes of the listing and exits 1 or is killed (quick: every line boundary, every byte of the first two lines and of the execve site, around every 4096-byte flush boundary of a 20 kB listing; thorough: every byte), tool missing from PATH, the profiler itself killed with SIGKILL after the disassembler produced p bytes (every 1024 bytes of a 20 kB listing), SIGKILL or ENOSPC injected by strace at the N-th write to the cache file (N=1..9), and depth-2 fault sequences at line granularity; oracle: the final normal run prints exactly the cold-cache profile or exits non-zero, and a reused cache file equals the complete one; distinct_nontrivial = histories"
 	ctx.Assumptions = []string{"the fake go tool stands for any disassembler failure; the cache path is <home>/.seccomp-profiler/<base>-<sha256(abs)[:10]> as the profiler logs it", "strace injection realises crashes at write granularity"}
 	return ctx.Finish()
 }
